@@ -102,7 +102,12 @@ H_EHeader(s, r, l) == R([s EXCEPT !.ehdr = TRUE], Chk("C12_HeaderFirst", s.efram
 H_EOpen(s, r, l) == R([s EXCEPT !.eopens = @ + 1, !.emfs = r.f.mfs, !.echmax = r.f.chmax, !.eidle = r.f.idle],
                       Chk("C12_OpenOnceFirst", s.eopens = 0 /\ r.ch = 0, l, "open"))
 H_EClose(s, r, l) == R([s EXCEPT !.ecloses = @ + 1, !.ecloseErr = (r.f.err # ""), !.oblClose = FALSE],
-                       Chk("C12_CloseAtMostOnce", s.ecloses = 0, l, ""))
+                       Chk("C12_CloseAtMostOnce", s.ecloses = 0, l, "")
+                       \* the peer's close is answered only after what had been handed over before has been written
+                     + Chk("C12_FlushBeforeClose", ~(s.pclose /\ s.ecloses = 0 /\ ~s.illegal /\ ~s.garbage /\ ~s.appTeardown /\ r.f.err = "")
+                                                   \/ \A k \in DOMAIN s.ls : ~(s.ls[k].eutSender /\ s.ls[k].pAtt /\ ~s.ls[k].pDet /\ ~s.ls[k].eDet
+                                                                              /\ \E n \in DOMAIN s.ls[k].sendq : s.ls[k].sendq[n].ret /\ s.ls[k].sendq[n].presettled
+                                                                                                                /\ (s.ls[k].sendq[n].did < 0 \/ s.ls[k].inDel)), l, ""))
 
 H_EBegin(s, r, l) ==
   LET f == r.f
@@ -616,11 +621,7 @@ Step(s, r, l) ==
                               \* cancellation never leaves half a delivery on the wire nor a complete delivery undelivered
                               + Chk("C16_NeverPartial", ~ConnUp(s) \/ \A k \in DOMAIN s.ls : ~(s.ls[k].eutSender /\ LinkLiveE(s.ls[k]) /\ ~s.ls[k].pDet /\ s.ls[k].inDel /\ s.ls[k].cancels > 0), l, "")
                               + Chk("C16_NoLoss", ~ConnUp(s) \/ \A k \in DOMAIN s.ls : ~(~s.ls[k].eutSender /\ LinkLiveE(s.ls[k]) /\ ~s.ls[k].pDet /\ ~s.ls[k].broken /\ \E n \in DOMAIN s.ls[k].inq : Eligible(s.ls[k].inq[n])), l, "")
-                              + Chk("C14_TasksEnd", ~ConnDead(s) \/ s.lastAlive <= Len(r.pending), l, "")
-                              \* the peer's close is answered only after what had been handed over before has been written
-                              + Chk("C12_FlushBeforeClose", ~(s.pcloseHeard /\ s.ecloses = 1 /\ ~s.illegal /\ ~s.garbage /\ ~s.noise /\ ~s.appTeardown)
-                                                            \/ \A k \in DOMAIN s.ls : ~(s.ls[k].eutSender /\ s.ls[k].pAtt /\ ~s.ls[k].pDet /\ ~s.ls[k].eDet
-                                                                                       /\ \E n \in DOMAIN s.ls[k].sendq : s.ls[k].sendq[n].ret /\ s.ls[k].sendq[n].did < 0 /\ s.ls[k].sendq[n].presettled), l, ""))
+                              + Chk("C14_TasksEnd", ~ConnDead(s) \/ s.lastAlive <= Len(r.pending), l, ""))
       [] r.ev = "Spin" -> R(s, Fail("C15_Quiesces", l, "spin"))
       [] r.ev = "Hook" -> R([s EXCEPT !.hook = (r.op = "arm")], 0)
       [] r.ev = "Advance" -> R([s EXCEPT !.tol = Max(@, r.step + 2)], 0)
